@@ -205,8 +205,16 @@ func (c09Engine) Run(sci interface{}, ctx *RunCtx) *Finding {
 			return Snapshot(pr)
 		}
 		plainOff := variant(false, false)
-		variant(true, false)
+		plainOn := variant(true, false)
 		variant(true, true)
+		// ... nor on the value of the process-wide memory budget at compile time
+		savedBudget := vm.MemoryBudget
+		vm.MemoryBudget = 3
+		lowOn := variant(true, false)
+		vm.MemoryBudget = savedBudget
+		if lowOn != plainOn {
+			return &Finding{Class: "C09/compile-depends-on-memory-budget", Detail: fmt.Sprintf("the same source and options compile to a different program when vm.MemoryBudget has another value at compile time\nsource: %s\n default budget: %s\n budget 3:       %s", src, plainOn, lowOn)}
+		}
 		ctx.Count("option_toggle_recompilations", 1)
 		if again := variant(false, false); again != plainOff {
 			return &Finding{Class: "C09/compile-depends-on-earlier-options", Detail: fmt.Sprintf("compiling with Optimize(false) gives a different program after the same source was compiled with other options (optimised, overloaded operators)\nsource: %s\n first: %s\n later: %s", src, plainOff, again)}
